@@ -273,8 +273,10 @@ static void lean_report(void) {
     out(","); out_bytes("sockdelta", a_sock.p ? a_sock.p + lean_sock_off : (unsigned char *)"", a_sock.n - lean_sock_off); lean_sock_off = a_sock.n;
 }
 
+static volatile int in_vfork_child = 0;
 static int rec_cb(int is_execve, const char *path, char *const argv[], char *const envp[]) {
     R.calls++;
+    if (in_vfork_child) _exit(0);     /* vcall: the exec "succeeds" - it never returns, and the vfork parent resumes in the memory this child leaves behind */
     if (R.calls == 1) {
         R.kind_ok = (is_execve == R.is_execve);
         R.path_same_ptr = (path == R.path_ptr); R.path_eq = path && !strcmp(path, R.path_copy);
@@ -306,8 +308,18 @@ static void do_call(char **tok, int ntok) {
     live0 = ht_live; bytes0 = ht_bytes; ht_on = 1;
 #endif
     errno = pre_errno >= 0 ? pre_errno : last_errno;      /* the caller's ambient errno; -1 = whatever the previous call left behind (a failed exec leaves its errno) */
-    int r = R.is_execve ? execve(path, argv, envp) : execv(path, argv);
-    int e = errno; last_errno = e;
+    int r, e;
+    if (!strcmp(tok[0], "vcall")) {
+        /* the call is made by a vfork() child and its exec succeeds: the child shares this process's memory until then */
+        int pe = errno; pid_t vp = vfork();
+        if (vp == 0) { in_vfork_child = 1; errno = pe; if (R.is_execve) execve(path, argv, envp); else execv(path, argv); _exit(97); }
+        in_vfork_child = 0; int vst = 0; while (waitpid(vp, &vst, 0) < 0 && errno == EINTR) {}
+        r = WIFEXITED(vst) ? WEXITSTATUS(vst) : 1000 + WTERMSIG(vst); e = pe; errno = pe;
+    } else {
+        r = R.is_execve ? execve(path, argv, envp) : execv(path, argv);
+        e = errno;
+    }
+    last_errno = e;
 #ifdef VERIF_HEAPTRACK
     ht_on = 0;
     out(",\"heap_delta_live\":%ld,\"heap_delta_bytes\":%ld", ht_live - live0, ht_bytes - bytes0);
@@ -392,7 +404,7 @@ int main(int argc, char **argv) {
             char *val = mkstr(nt > 1 ? tok[1] : "h"); char *dst = !strcmp(tok[0], "defformat") ? verif_def_format : !strcmp(tok[0], "defchain") ? verif_def_chain : !strcmp(tok[0], "defoutput") ? verif_def_output : !strcmp(tok[0], "defoutarg") ? verif_def_output_arg : verif_def_ident;
             size_t cap = !strcmp(tok[0], "defformat") ? 65536 : !strcmp(tok[0], "defoutput") ? 256 : 8192; strncpy(dst, val, cap - 1); dst[cap - 1] = 0; free(val); }
         else if (!strcmp(tok[0], "wantdigest")) want_digest = atoi(tok[1]);
-        else if (!strcmp(tok[0], "call")) do_call(tok, nt);
+        else if (!strcmp(tok[0], "call") || !strcmp(tok[0], "vcall")) do_call(tok, nt);
         else if (!strcmp(tok[0], "syms")) load_syms(tok[1]);
         else if (!strcmp(tok[0], "digest")) digest(nt > 1 ? tok[1] : "");
         else if (!strcmp(tok[0], "umask")) umask(strtol(tok[1], NULL, 8));
